@@ -523,7 +523,50 @@ fn subdomain_for(rng: &mut ChaCha20Rng, kind: usize, size: usize) -> (String, Ve
   }
 }
 
+/// Miri-sized run: one key, 6 punctures, 10 sampled inputs checked per step
+fn tiny(ctx: &Ctx) -> Rec {
+  let mut rec = Rec::new();
+  let g0 = GGM::setup();
+  let mut rng = case_rng(ctx, "tiny", 0);
+  let probes: Vec<u8> = vec![0, 1, 2, 128, 129, 255, rng.gen(), rng.gen(), rng.gen(), rng.gen()];
+  let base: Vec<Option<Seed>> = probes.iter().map(|&x| eval1(&g0, x).ok()).collect();
+  let mut g = g0.clone();
+  let mut punct: Vec<u8> = Vec::new();
+  for step in 0..6 {
+    let x = probes[(step * 3) % probes.len()];
+    rec.evals += 1;
+    rec.transitions += 1;
+    rec.ev("punctures");
+    let r = g.puncture(&[x]);
+    if punct.contains(&x) {
+      if r.is_ok() {
+        rec.violation("double-puncture-accepted", format!("input {} punctured twice", x), json!({}));
+      }
+    } else if r.is_ok() {
+      punct.push(x);
+    }
+    rec.case(&("tiny", step, x));
+    for (i, &p) in probes.iter().enumerate() {
+      let v = eval1(&g, p).ok();
+      rec.ev("evaluations");
+      if punct.contains(&p) {
+        if v.is_some() {
+          rec.violation("punctured-input-evaluates", format!("input {} evaluates after puncturing", p), json!({}));
+        }
+      } else if v != base[i] {
+        rec.violation("value-changed", format!("input {} changed", p), json!({}));
+      }
+    }
+  }
+  let _ = g.verif_retained_nodes();
+  rec.sample(json!({"tiny_history": punct}));
+  rec
+}
+
 pub fn explore(ctx: &Ctx, mode: Mode) -> Rec {
+  if ctx.flag("tiny") {
+    return tiny(ctx);
+  }
   let th = ctx.thorough();
   // material checks are ~100x cheaper than full behaviour tables
   let cheap = mode == Mode::Material;
